@@ -163,6 +163,11 @@ def band_model_problems(sig, max_chan=96):
                                  f"(fc={float(fc)}, bw={float(bw)}, align={align}, nchan={n})"))
             break
     lo, hi = exact.hz(sig.min_freq), exact.hz(sig.max_freq)
+    tol64 = tol
+    narrow = [getattr(q.value, "dtype", np.dtype(float)) for q in (sig.min_freq, sig.max_freq, sig.bandwidth)]
+    if any(d.kind == "f" and d.itemsize < 8 for d in narrow):
+        # band edges returned as single-precision scalars (single-precision inputs) cannot be more exact than their own type
+        tol = tol + F(1, 2 ** 21) * (abs(fc) + n * bw)
     if abs((hi - lo) - n * bw) > 2 * tol:
         out.append(("width", f"max_freq-min_freq={float(hi - lo)} != nchan*chan_bw={float(n * bw)}"))
     if abs(lo - (fc - n * bw / 2)) > tol or abs(hi - (fc + n * bw / 2)) > tol:
@@ -172,6 +177,7 @@ def band_model_problems(sig, max_chan=96):
     vmin, vmax = F(float(vals.min())), F(float(vals.max()))
     if vmin < lo - tol or vmax > hi + tol:
         out.append(("outside", "a channel label lies outside [min_freq, max_freq]"))
+    tol = tol64
     if n > 1:
         d = np.diff(vals)
         if abs(F(float(d.min())) - bw) > 2 * tol or abs(F(float(d.max())) - bw) > 2 * tol:
